@@ -244,6 +244,31 @@ def handle (op : String) (j : Json) : Option (Except String Json) :=
         (← getNatList o "content") (← getNatList o "static")
       .ok (Json.mkObj [("ir", irJ ir')])
     | k => .error s!"unknown ir op {k}"
+  | "loop_step" => some do
+    -- one iteration of the loop of `_apply_modifications` (`IR.applyMods` on a one-element list),
+    -- with the premises of `Props.C01.loop_is_listing` evaluated on this state
+    let ir ← irOf (← j.getObjVal? "ir")
+    let origOff ← getNat j "orig_off"
+    let actual ← getNat j "actual"
+    let total ← (← j.getObjVal? "total").getInt?
+    let o ← j.getObjVal? "do"
+    let kind ← getStr o "kind"
+    let off ← getNat o "off"
+    let m : Mod ← match kind with
+      | "insert" => do pure (Mod.ins off (← getNat o "repl") (← patchOf (← o.getObjVal? "patch")))
+      | "delete" => do pure (Mod.del off (← getNat o "length") (← getBool o "proxy"))
+      | k => .error s!"unknown loop op {k}"
+    let ao : Json := match ir.block? actual with
+      | some ab => toJson (actualOffset origOff ab total off)
+      | none => Json.null
+    let idsBelow := ir.ids.all (fun k => decide (k < ir.next))
+    let newBlocks := match m with
+      | .ins _ _ p => p.text.blocks.all (fun b => (ir.block? b.id).isNone)
+      | .del _ _ _ => true
+    let res : Json := match IR.applyMods origOff ir (some actual) total [m] with
+      | .ok ir' => Json.mkObj [("ir", irJ ir')]
+      | .error e => errJson e
+    .ok (Json.mkObj [("ao", ao), ("ids_below", Json.bool idsBelow), ("new_blocks", Json.bool newBlocks), ("res", res)])
   | _ => none
 
 end Driver.IRJson
